@@ -2,6 +2,7 @@ package main
 
 import (
 	"fmt"
+	"os"
 	"math/big"
 	"strings"
 )
@@ -309,4 +310,54 @@ func splitGoal(g Term, limit int) []Term {
 		}
 	}
 	return []Term{g}
+}
+
+// mkForall builds a universal quantifier in prenex form: universal quantifiers
+// nested in the body (directly or at the end of a chain of implications) are
+// merged into one binder list, so that e-matching patterns can mention the
+// variables of all levels. Pattern annotations of the inner quantifier are kept.
+func mkForall(binders string, body Term) Term {
+	// only quantifiers over slices are merged with what they contain: without merging their
+	// variables occur in no term outside the inner quantifiers, so no pattern exists; merging
+	// plain integer quantifiers (e.g. the i,j of a sortedness predicate) measurably hurts
+	if os.Getenv("GVC_NOPRENEX") != "" || !strings.Contains(binders, "(Array ") {
+		return Term{"(forall (" + binders + ") " + body.S + ")", SBool}
+	}
+	annot := ""
+	cur := body.S
+	var prem []string
+	for {
+		ch, ok := sexprChildren(cur)
+		if !ok {
+			break
+		}
+		if len(ch) >= 4 && ch[0] == "!" {
+			if annot == "" {
+				annot = strings.Join(ch[2:], " ")
+			}
+			cur = ch[1]
+			continue
+		}
+		if len(ch) == 3 && ch[0] == "=>" {
+			prem = append(prem, ch[1])
+			cur = ch[2]
+			continue
+		}
+		if len(ch) == 3 && ch[0] == "forall" {
+			binders += " " + ch[1][1:len(ch[1])-1]
+			cur = ch[2]
+			continue
+		}
+		break
+	}
+	b := cur
+	if len(prem) == 1 {
+		b = "(=> " + prem[0] + " " + cur + ")"
+	} else if len(prem) > 1 {
+		b = "(=> (and " + strings.Join(prem, " ") + ") " + cur + ")"
+	}
+	if annot != "" {
+		b = "(! " + b + " " + annot + ")"
+	}
+	return Term{"(forall (" + binders + ") " + b + ")", SBool}
 }
